@@ -388,6 +388,46 @@ func (br *BoundsRules) checkIndex(fc *FuncCtx, b *ssa.BasicBlock, in ssa.Instruc
 			return
 		}
 	}
+	// (f) an index recorded by a search loop over this very slice (idx := -1; for i := range X { if .. { idx = i } }),
+	// used on a path where it is not -1
+	if ph, ok := idx.(*ssa.Phi); ok {
+		okLeaves, nIdx := true, 0
+		seen := map[ssa.Value]bool{}
+		var walk func(v ssa.Value)
+		walk = func(v ssa.Value) {
+			if seen[v] {
+				return
+			}
+			seen[v] = true
+			switch y := v.(type) {
+			case *ssa.Const:
+				if !isIntConst(y, -1) {
+					okLeaves = false
+				}
+			case *ssa.Phi:
+				if br.inRangeLoopOver(fc, y, ap) {
+					nIdx++
+					return
+				}
+				for _, e := range y.Edges {
+					walk(e)
+				}
+			default:
+				if br.inRangeLoopOver(fc, v, ap) {
+					nIdx++
+				} else {
+					okLeaves = false
+				}
+			}
+		}
+		walk(ph)
+		if okLeaves && nIdx > 0 {
+			if found, ok := fc.foundByIndex(ph); ok && fc.Implied(b, found) {
+				br.R.OK(rule, cons, p.InstrPos(in), "index recorded by a search loop over the same slice, under index >= 0")
+				return
+			}
+		}
+	}
 	// (d) variable index guarded by idx < len(X)
 	B := br.A.B
 	name := "lt(" + fc.AP(idx) + ",len(" + ap + "))"
